@@ -298,10 +298,11 @@ type RunResult struct {
 	Err       error  // infrastructure trouble
 }
 
-// Loop executes runs [0,n) on `workers` goroutines in batches and stops at
-// the first batch containing a violation (the one with the lowest run index
-// is returned, so the outcome is a function of the seed, not of timing).
-func (c *Ctx) Loop(start, n int64, fn func(run int64) RunResult) (*RunResult, error) {
+// Loop executes runs [start,n) on `workers` goroutines in batches and stops
+// after the first batch containing violations; it returns them in run order
+// (so the outcome is a function of the seed, not of timing) together with the
+// index at which to continue.
+func (c *Ctx) Loop(start, n int64, fn func(run int64) RunResult) ([]RunResult, int64, error) {
 	batch := int64(c.Workers * 32)
 	if batch < 64 {
 		batch = 64
@@ -330,44 +331,48 @@ func (c *Ctx) Loop(start, n int64, fn func(run int64) RunResult) (*RunResult, er
 		}
 		wg.Wait()
 		sort.Slice(results, func(i, j int) bool { return results[i].Run < results[j].Run })
+		var viols []RunResult
 		for i := range results {
 			if results[i].Err != nil {
-				return nil, results[i].Err
+				return nil, 0, results[i].Err
+			}
+			if results[i].Violation != nil {
+				viols = append(viols, results[i])
 			}
 		}
-		for i := range results {
-			if results[i].Violation != nil {
-				return &results[i], nil
-			}
+		if len(viols) > 0 {
+			return viols, hi, nil
 		}
 	}
-	return nil, nil
+	return nil, n, nil
 }
 
 // Drive runs the loop to completion. Every violation is first minimised by
-// finish (which also names the known-finding predicate the minimised case
-// satisfies, if any); a violation matching a listed finding prints
-// KNOWN-FINDING and the loop carries on after it; any other violation is
-// reported and ends the check.
+// finish (which also names the known-finding predicate the case satisfies, if
+// any); a violation matching a listed finding prints KNOWN-FINDING once and
+// the loop carries on; any other violation is reported and ends the check.
 func (c *Ctx) Drive(n int64, fn func(run int64) RunResult, finish func(*Violation) (*Violation, string)) (int, error) {
 	start := int64(0)
-	for {
-		rr, err := c.Loop(start, n, fn)
+	for start < n {
+		viols, next, err := c.Loop(start, n, fn)
 		if err != nil {
 			return 0, err
 		}
-		if rr == nil {
-			return 0, nil
+		for i := range viols {
+			v, key := viols[i].Violation, viols[i].MatchKey
+			if finish != nil {
+				v, key = finish(viols[i].Violation)
+			}
+			if c.Report(v, key) {
+				return 1, nil
+			}
 		}
-		v, key := rr.Violation, rr.MatchKey
-		if finish != nil {
-			v, key = finish(rr.Violation)
+		if len(viols) == 0 {
+			break
 		}
-		if c.Report(v, key) {
-			return 1, nil
-		}
-		start = rr.Run + 1
+		start = next
 	}
+	return 0, nil
 }
 
 // ---------------------------------------------------------------------------
